@@ -443,6 +443,111 @@ def enum_big(tier):
     for later in (0, 1, 3):
         for newport in (1965, 1966):
             yield {"interleaved": True, "later_rows": later, "newport": newport}
+    yield {"busy_open": True}
+    for replace in (True, False):
+        for defect in (None, "bad-port-last", "bad-fingerprint-first", "bad-port-middle"):
+            yield {"cli_import": True, "replace": replace, "defect": defect}
+
+
+def run_busy_open(case):
+    """Another connection holds the store exclusively for longer than SQLite's busy timeout while a second TOFUDatabase
+    object is opened on the same file (a client starting up, a CLI command): opening may fail, the pins must survive."""
+    import sqlite3 as _sq
+
+    from nauyaca.security.tofu import TOFUDatabase
+
+    d = scratch.subdir("c12-busy")
+    try:
+        dbpath = Path(d) / "tofu.db"
+        TOFUDatabase(dbpath)
+        conn = _real_connect(str(dbpath))
+        conn.executemany("INSERT INTO known_hosts VALUES (?,?,?,?,?)",
+                         [(f"keep{i}.example", 1965, FPS[i % 3], "2019-01-01T00:00:00+00:00", "2019-01-01T00:00:00+00:00") for i in range(3)])
+        conn.commit()
+        conn.close()
+        before = read_table(dbpath)
+        holder = _real_connect(str(dbpath), isolation_level=None)
+        holder.execute("BEGIN EXCLUSIVE")
+        holder.execute("INSERT INTO known_hosts VALUES ('writer.example', 1965, ?, '2020-01-01T00:00:00+00:00', '2020-01-01T00:00:00+00:00')", (FPS[0],))
+        err = None
+        try:
+            TOFUDatabase(dbpath)  # waits for the busy timeout (about 5 s of real time), then fails or succeeds
+        except Exception as e:
+            err = repr(e)
+        try:
+            holder.execute("COMMIT")
+        except _sq.Error as e:
+            err = (err or "") + " / writer: " + repr(e)
+        holder.close()
+        after = read_table(dbpath)
+        leftovers = sorted(x for x in os.listdir(d) if not x.startswith("tofu.db") or x.endswith((".damaged", ".bak", ".old", ".corrupt")))
+        want = dict(before)
+        want[("writer.example", 1965)] = [FPS[0], "2020-01-01T00:00:00+00:00"]
+        info = {"open_error": err, "nonempty_fail": 1}
+        if after != want and after != before:
+            return viol("store-neither-before-nor-after", f"a second TOFUDatabase was opened while the store was locked by a writer: {len(before)} pins "
+                        f"before, {len(after)} afterwards (expected the {len(before)} old pins, with or without the writer's one); directory now "
+                        f"holds {sorted(os.listdir(d))}", kind="busy-open", **info)
+        if leftovers:
+            return viol("store-neither-before-nor-after", f"the store file was moved aside: {sorted(os.listdir(d))}", kind="busy-open", **info)
+        return ok(**info)
+    finally:
+        import shutil
+
+        shutil.rmtree(d, ignore_errors=True)
+
+
+def run_cli_import(case):
+    """`nauyaca tofu import [--replace] --force FILE` on a store in a temporary HOME: all-or-nothing like the API."""
+    import subprocess
+    import sys
+
+    from nauyaca.security.tofu import TOFUDatabase
+
+    home = scratch.subdir("c12-home")
+    try:
+        dbdir = Path(home) / ".nauyaca"
+        dbdir.mkdir()
+        dbpath = dbdir / "tofu.db"
+        TOFUDatabase(dbpath)
+        conn = _real_connect(str(dbpath))
+        conn.executemany("INSERT INTO known_hosts VALUES (?,?,?,?,?)",
+                         [(f"keep{i}.example", 1965, FPS[i % 3], "2019-01-01T00:00:00+00:00", "2019-01-01T00:00:00+00:00") for i in range(3)])
+        conn.commit()
+        conn.close()
+        before = read_table(dbpath)
+        ents = [("new1.example", 1965, FPS[0]), ("keep1.example", 1965, FPS[2]), ("new2.example", 1966, FPS[1])]
+        bad = {"bad-port-last": 2, "bad-fingerprint-first": 0, "bad-port-middle": 1}.get(case["defect"])
+        lines = ["[_metadata]", 'version = "1.0"', ""]
+        for i, (h, p_, f) in enumerate(ents):
+            port = 70000 if (bad == i and "port" in case["defect"]) else p_
+            fp = "sha256:zz" if (bad == i and "fingerprint" in case["defect"]) else f
+            lines += [f'[hosts."{h}:{p_}"]', f'hostname = "{h}"', f"port = {port}", f'fingerprint = "{fp}"',
+                      'first_seen = "2020-01-01T00:00:00+00:00"', 'last_seen = "2021-01-01T00:00:00+00:00"', ""]
+        f_in = Path(home) / "in.toml"
+        f_in.write_text("\n".join(lines))
+        env = dict(os.environ, HOME=home, NO_COLOR="1", TERM="dumb")
+        pr = subprocess.run([sys.executable, "-m", "nauyaca", "tofu", "import", str(f_in), "--force"] + (["--replace"] if case["replace"] else []),
+                            env=env, capture_output=True, text=True, timeout=120)
+        after = read_table(dbpath)
+        info = {"rc": pr.returncode, "nonempty_fail": 1 if case["defect"] else 0}
+        if case["defect"]:
+            if pr.returncode == 0:
+                return viol("import-of-defective-file-succeeded", f"{case}: {pr.stdout[-200:]}", **info)
+            if after != before:
+                return viol("store-neither-before-nor-after", f"`nauyaca tofu import{' --replace' if case['replace'] else ''}` failed on a defective file "
+                            f"({case['defect']}): {len(before)} pins before, {len(after)} afterwards", kind="cli", **info)
+            return ok(**info)
+        exp = {} if case["replace"] else {k: list(v) for k, v in before.items()}
+        for h, p_, f in ents:
+            exp[(h, p_)] = [f, exp.get((h, p_), [None, "2020-01-01T00:00:00+00:00"])[1]]
+        if pr.returncode != 0 or {k: v[0] for k, v in after.items()} != {k: v[0] for k, v in exp.items()}:
+            return viol("valid-import-wrong-result", f"{case}: rc={pr.returncode} {pr.stderr[-200:]} store={sorted(after)}", **info)
+        return ok(**info)
+    finally:
+        import shutil
+
+        shutil.rmtree(home, ignore_errors=True)
 
 
 def run_roundtrip_big(case):
@@ -537,6 +642,10 @@ def run_big(case: dict):
         return run_roundtrip_big(case)
     if case.get("interleaved"):
         return run_interleaved(case)
+    if case.get("busy_open"):
+        return run_busy_open(case)
+    if case.get("cli_import"):
+        return run_cli_import(case)
     from nauyaca.security.tofu import TOFUDatabase
 
     d = scratch.subdir("c12-big")
@@ -664,8 +773,9 @@ def _bucket(case, v):
 
 LANES = [
     Lane(name="big-transaction-crash", run_case=run_big, enumerate=enum_big, budget={"quick": 1, "thorough": 1},
-         shards={"quick": 4, "thorough": 4}, nontrivial=lambda c, v: True,
-         labels=lambda c, v: ["big" if c.get("big") else ("roundtrip:%d" % c["roundtrip"] if "roundtrip" in c else "interleaved")], exhaustive=True,
+         shards={"quick": 8, "thorough": 8}, nontrivial=lambda c, v: True,
+         labels=lambda c, v: ["big" if c.get("big") else ("roundtrip:%d" % c["roundtrip"] if "roundtrip" in c else
+                                      "busy-open" if c.get("busy_open") else "cli-import" if c.get("cli_import") else "interleaved")], exhaustive=True,
          rule="one import larger than SQLite's page cache (30000 hosts into a 1500-pin store) killed at the statement "
               "boundary before COMMIT; reopened table must equal the previous one and pass PRAGMA integrity_check; export/"
               "import round trips of 999..5000 pins; an import whose conflict callback runs while another connection "
